@@ -1,4 +1,22 @@
-From KV Require Import Base.Prelude Model.Ledger.
-Theorem C11_tmp : b_as_slice (b_new 0) = Some [].
-Proof. reflexivity. Qed.
-Print Assumptions C11_tmp.
+(** C11 — array-building macros return fully initialised arrays equal to std's.
+    Statements only; every proof is [exact <lemma>].  (Builder / map_! / from_fn_!
+    statements are appended below once their lemmas are in Proofs/LedgerProofs.v.) *)
+From KV Require Import Base.Prelude Model.ArrayMacros Spec.ArrayMacros Proofs.ArrayMacrosProofs.
+Local Open Scope nat_scope.
+
+(** array::map!: for EVERY closure behaviour (per-evaluation outcomes value / break /
+    continue / return / panic, possibly stateful) and EVERY fuel, a result that reaches
+    [array_assume_init] has every slot written, has the input's length, and holds in slot i
+    a value the closure produced for input element i. *)
+Theorem C11_map_built_produced : forall (A B : Type) fuel (clo : nat -> A -> outcome B) input slots,
+  array_map_m fuel clo input = Built slots ->
+  exists l, slots = map Some l /\ Forall2 (produced clo) input l.
+Proof. exact @map_built_produced. Qed.
+Theorem C11_map_built_full : forall (A B : Type) fuel (clo : nat -> A -> outcome B) input slots (f : A -> B),
+  (forall k x v, clo k x = Value v -> v = f x) ->
+  array_map_m fuel clo input = Built slots ->
+  fully_init slots /\ slots = map Some (map f input).
+Proof. exact @map_built_full. Qed.
+Theorem C11_map_built_length : forall (A B : Type) fuel (clo : nat -> A -> outcome B) input slots,
+  array_map_m fuel clo input = Built slots -> fully_init slots /\ length slots = length input.
+Proof. exact @map_built_length. Qed.
